@@ -574,6 +574,14 @@ class S:
     def conjugate(self):
         return self
 
+    def rint(self):
+        return S(const(concretize_rint(self)), self.nd)
+
+    def __round__(self, ndigits=None):
+        if ndigits not in (None, 0):
+            raise Unsupported("round to %r digits" % (ndigits,))
+        return concretize_rint(self)
+
     def __floor__(self):
         return concretize_floor(self)
 
@@ -736,6 +744,21 @@ def concretize_floor(s):
     hyper = bool(vs) and all(CTX.vars[x].kind == "hyper" for x in vs)
     record_pc(sub(n, const(k)), ">" if v > k else ("==" if (hyper or CTX.allow_ties) else "tie"))
     record_pc(sub(n, const(k + 1)), "<")
+    return k
+
+
+def concretize_rint(s):
+    """round-half-to-even of a symbolic value (np.rint / np.round): concretised to k under the model, k - 1/2 < x < k + 1/2
+    joins the path condition; an exact half is a tie (measure zero)."""
+    n = s.n
+    if isc(n):
+        return int(np.rint(float(n.val)))
+    v = evalf(n)
+    k = int(np.rint(v))
+    half = Fraction(1, 2)
+    lo_v, hi_v = v - (k - 0.5), (k + 0.5) - v
+    record_pc(sub(n, const(k - half)), ">" if lo_v > 0 else "tie")
+    record_pc(sub(n, const(k + half)), "<" if hi_v > 0 else "tie")
     return k
 
 
